@@ -184,7 +184,7 @@ fn boxes_k<K: Kind>(c: &BoxCase, ctx: &mut Ctx) -> Result<(), Fail> {
         }
     }
     // (b) record box bytes, (c) header bytes
-    let (shp, _) = match write_bytes(&shapes, true, c.file.fin) {
+    let (shp, _) = match write_bytes_fins(&shapes, true, c.file.fin, c.file.mid_fins) {
         Ok(x) => x,
         Err(e) => fail!("write-error", "{}", e),
     };
